@@ -177,6 +177,11 @@ def validate_shards(spec, cfg, shards, tag, env=None, jobs=None,
 def model_check(spec, cfg, tag, workers=None, extra=None, timeout=3600,
                 xmx='8g', env=None):
     meta = os.path.join(OUT, 'meta', f'mc_{tag}_{os.getpid()}_{time.time_ns()}')
+    if workers is None and tag == 'neg':
+        # a configuration that is EXPECTED to be refuted: with many workers TLC
+        # waits, after the violation is found, for every other worker to finish
+        # the (possibly very expensive) state it is expanding
+        workers = 2
     rc, out, wall = run_tlc(spec, cfg, meta, workers=workers or NCPU,
                             extra=extra, timeout=timeout, xmx=xmx, env=env)
     gen, distinct = parse_stats(out)
